@@ -579,6 +579,14 @@ package car
 //@   let sel, cerr := call[selector.CompileSelector#0]
 //@   let rootNode, lerr := call[LinkSystem.Load#0]
 //@   call[selector.CompileSelector#0] assert the_given_selector [C15]: ref(arg0) == ref(s)
+//@   call[Progress.WalkMatching#0] assert the_link_budget_is_the_configured_maximum [C15]: ite(opts.MaxTraversalLinks < 9223372036854775807, arg0.Budget != nil && arg0.Budget.LinkBudget == opts.MaxTraversalLinks && arg0.Budget.NodeBudget == 9223372036854775807, arg0.Budget == nil)
+//@   closure[1]
+//@     let lbr, lberr := call[LargeBytesNode.AsLargeBytes#0]
+//@     let cn, cperr := call[io.Copy#0]
+//@     call[io.Copy#0] assert drains_the_large_bytes_reader [C15]: ref(arg1) == ref(lbr) && lberr == nil
+//@     check a_node_without_large_bytes_needs_nothing [C15]: !executed("LargeBytesNode.AsLargeBytes#0") ==> result == nil
+//@     check reports_what_reading_the_large_bytes_reported [C15]: executed("LargeBytesNode.AsLargeBytes#0") ==> ite(lberr != nil, result == lberr, result == cperr)
+//@   end
 //@   call[Progress.WalkMatching#0] assert visits_a_link_once_unless_duplicates_are_allowed [C15]: arg0.Cfg.LinkVisitOnlyOnce == !opts.BlockstoreAllowDuplicatePuts && arg0.Cfg.Ctx == ctx
 //@   call[LinkSystem.Load#0] assert the_root_through_the_given_link_system [C15]: ref(arg0) == ref(ls)
 //@   call[Progress.WalkMatching#0] assert from_the_loaded_root_with_the_compiled_selector [C15]: ref(arg1) == ref(rootNode) && ref(arg2) == ref(sel)
